@@ -15,7 +15,7 @@ TNext ==
   /\ l <= Len(TraceLog)
   /\ l' = l + 1
   /\ seen' = (IF "view" \in DOMAIN Ev THEN [has |-> TRUE, v |-> Ev.view] ELSE NoObs)
-  /\ CASE Ev.op = "Reset" -> oss' = EmptyOSS
+  /\ CASE Ev.op = "Reset" -> oss' = (IF Ev.labelled THEN EmptyLabelled ELSE EmptyOSS)
        [] Ev.op = "Fault" -> FALSE
        [] OTHER -> oss' = Apply(oss, Ev)
 TSpec == TInit /\ [][TNext]_tvars
